@@ -31,7 +31,7 @@ use kira::{
 	listener::{ListenerHandle, ListenerId},
 	sound::{Sound, SoundData},
 	track::{MainTrackBuilder, SpatialTrackBuilder, SpatialTrackHandle, TrackBuilder, TrackHandle},
-	Capacities, Easing, Frame, Mapping, Parameter, Tween, Value as KValue,
+	Capacities, Decibels, Easing, Frame, Mapping, Parameter, Tween, Value as KValue,
 };
 use kv::{common::*, scene::*};
 use serde_json::{json, Value};
@@ -45,11 +45,15 @@ struct ProbeStats {
 	runs: AtomicU64,
 	has: AtomicBool,
 	dv: AtomicI64,
+	/// a second parameter: listener distance mapped from [0, 1] onto [0, 1] with a curved easing (OutPowi(2)) - beyond
+	/// the input range it must sit at the end of the output range
+	dv2: AtomicI64,
 }
 
 struct Probe {
 	frame: Frame,
 	param: Parameter<f64>,
+	param2: Parameter<f64>,
 	stats: Arc<ProbeStats>,
 }
 
@@ -74,6 +78,10 @@ impl SoundData for ProbeData {
 		Ok((
 			Box::new(Probe {
 				frame: self.frame,
+				param2: Parameter::new(
+					KValue::FromListenerDistance(Mapping { input_range: (0.0, 1.0), output_range: (0.0, 1.0), easing: Easing::OutPowi(2) }),
+					0.5,
+				),
 				param,
 				stats: self.stats,
 			}),
@@ -90,6 +98,9 @@ impl Sound for Probe {
 		let v = self.param.value() * 1000.0;
 		let dv = if v.is_finite() { v.round().clamp(-2.0e9, 2.0e9) as i64 } else { -2_000_000_000 };
 		self.stats.dv.store(dv, Ordering::SeqCst);
+		self.param2.update(dt * out.len() as f64, info);
+		let v2 = self.param2.value() * 1000.0;
+		self.stats.dv2.store(if v2.is_finite() { v2.round().clamp(-2.0e9, 2.0e9) as i64 } else { -2_000_000_000 }, Ordering::SeqCst);
 		out.fill(self.frame);
 	}
 	fn finished(&self) -> bool {
@@ -289,6 +300,7 @@ fn life_session(sc: &Value, tr: &mut Tracer) {
 							"h": any_bits & bit != 0,
 							"has": s.has.load(Ordering::SeqCst),
 							"dv": s.dv.load(Ordering::SeqCst),
+							"dv2": s.dv2.load(Ordering::SeqCst),
 							"runs": s.runs.load(Ordering::SeqCst) - before[id],
 						}));
 					}
@@ -333,6 +345,41 @@ fn gain6(out: f32, input: f32) -> i64 {
 	} else {
 		-2_000_000_000
 	}
+}
+
+/// a distance mapping installed through the handle: set_volume(FromListenerDistance(..), tween), then the emitter moves
+fn vmap_session(sc: &Value, tr: &mut Tracer) {
+	let d = sc["d"].as_u64().unwrap_or(0);
+	let (x1, x2) = (sc["x1"].as_i64().unwrap(), sc["x2"].as_i64().unwrap());
+	tr.reset(json!({"kind": "vmap", "d": d, "cls": "vmap"}));
+	let input = Frame::new(0.5, 0.25);
+	let mut sim = Sim::basic();
+	let listener = sim.manager.add_listener(Vec3::ZERO, Quat::IDENTITY).unwrap();
+	let builder = SpatialTrackBuilder::new().attenuation_function(None).spatialization_strength(0.0);
+	let mut track = sim.manager.add_spatial_sub_track(listener.id(), Vec3::new(x1 as f32, 0.0, 0.0), builder).unwrap();
+	let stats: Arc<ProbeStats> = Default::default();
+	track.play(ProbeData { frame: input, stats }).unwrap();
+	sim.callback(NF);
+	track.set_volume(
+		KValue::FromListenerDistance(Mapping { input_range: (0.0, 16.0), output_range: (Decibels(0.0), Decibels(-16.0)), easing: Easing::Linear }),
+		Tween { start_time: kira::StartTime::Immediate, duration: chunks(d), easing: Easing::Linear },
+	);
+	let mut p = false;
+	for _ in 0..(d + 3) {
+		p |= sim.callback(NF).panicked.is_some();
+	}
+	let r = sim.callback(NF);
+	p |= r.panicked.is_some();
+	tr.ev(json!({"a": "vm", "x": x1, "g": gain6(*r.out.get(0).unwrap_or(&0.0), input.left), "p": p}));
+	track.set_position(Vec3::new(x2 as f32, 0.0, 0.0), instant());
+	for _ in 0..2 {
+		p |= sim.callback(NF).panicked.is_some();
+	}
+	let r = sim.callback(NF);
+	p |= r.panicked.is_some();
+	tr.ev(json!({"a": "vm", "x": x2, "g": gain6(*r.out.get(0).unwrap_or(&0.0), input.left), "p": p}));
+	tr.ev(json!({"a": "end"}));
+	drop(listener);
 }
 
 fn geo_session(sc: &Value, tr: &mut Tracer) {
@@ -412,6 +459,7 @@ fn main() {
 		match sc["kind"].as_str().unwrap_or("") {
 			"life" => life_session(&sc, &mut tr),
 			"geo" => geo_session(&sc, &mut tr),
+			"vmap" => vmap_session(&sc, &mut tr),
 			other => panic!("unknown scenario kind {other}"),
 		}
 	}
